@@ -144,6 +144,7 @@ def run(rep, facts, tier):
                 ok = False
     rep.check(ok, 'R01.14', 'process_received_data/reception-recorded', 'proxy found => received_changes_add(writer_sn) before make_cache_change, on every path',
               'process_received_data can store a sample of a matched writer without recording its sequence number in the writer proxy: the reliable frontier never passes it', pr.where())
+    rule_stored(rep, fx)
     si = fx.find('rtps::rtps_writer_proxy::RtpsWriterProxy::should_ignore_change')
     rep.analysed(si)
     ogs = Origins(si, summaries=True)
@@ -395,3 +396,114 @@ def rule_reliable_window(rep, fx, rid):
     t0 = og.of_local(0, rb.return_blocks()[0], 'term')
     rep.check(has_field(t0, 'received_reliably_before') and term_has(t0, lambda x: x == ('param', 2)), rid, 'reliable_before/lookup',
               'received_reliably_before.get(writer) | default', 'reliable_before does not look the marker up by the given writer', rb.where())
+
+
+def rule_stored(rep, fx):
+    """From the accepted DATA to the two indexes of the topic cache the reliable query reads (mutation triage: deleting the add_change call, or the marker update after it,
+    left every check silent - R01.1..R01.5 constrain how the stores are read and what may be written, not that the write happens)."""
+    rep.rule('R01.15', 'a received sample is stored under its number and the marker follows: make_cache_change hands CacheChange::new(writer_guid, writer_sn, write_options, data) of '
+                       'its own parameters with its receive timestamp to TopicCache::add_change on every path and, unless stateless-like, updates the marker of that writer from '
+                       'its proxy (mark_reliably_received_before(writer_guid, proxy.all_ackable_before())); add_change is add_change_internal of the same arguments; for a number '
+                       'not yet known (find_by_sn = None) add_change_internal records (writer_guid, sequence_number) -> instant in sequence_numbers (insert_sn) and instant -> '
+                       'change in changes on every path, and for a known number it records nothing (at most once)')
+    TC = 'structure::dds_cache::TopicCache::'
+    m = fx.find('rtps::reader::Reader::make_cache_change')
+    rep.analysed(m)
+    og = Origins(m, summaries=False)
+    P = Pos(m)
+    names = param_names(m)
+    want = [k for nm in ('writer_guid', 'writer_sn', 'write_options', 'data') for k, v in names.items() if v == nm]
+    ts = [k for k, v in names.items() if v == 'receive_timestamp']
+    adds = []
+    for bb, t in m.calls():
+        if call_matches(t, 'TopicCache::add_change'):
+            cc = og.of_operand(t['args'][2], bb, 'term')
+            when = _unref(og.of_operand(t['args'][1], bb, 'term'))
+            good = cc[0] == 'call' and cc[1].endswith('CacheChange::new') and [a for a in cc[2]] == [('param', k) for k in want] and len(want) == 4 and ts and when == ('param', ts[0])
+            adds.append((bb, good))
+    ok = len(adds) == 1 and adds[0][1] and all(P.every_path_passes(None, (r, 'term'), via_pos=[(adds[0][0], 'term')], from_entry=True) for r in m.return_blocks())
+    rep.check(ok, 'R01.15', 'make_cache_change/stored', 'add_change(receive_timestamp, CacheChange::new(writer_guid, writer_sn, write_options, data)) on every path',
+              'make_cache_change does not put the received change (writer, number, options and data as handed in) into the topic cache on every path: the sample is acknowledged '
+              'and never handed over', m.where(adds[0][0]) if adds else m.where())
+    edges = list(switch_edges(m, fx, og))
+    stateful = [(s_, t_) for s_, t_, cond, lab in edges if (cond == ('field', 'like_stateless', ('param', 1)) and lab is False) or
+                (cond[0] == 'un' and cond[1] == 'Not' and cond[2] == ('field', 'like_stateless', ('param', 1)) and lab is True)]
+    marks = []
+    for c in fx.closures_of(m):
+        ogc = Origins(c, summaries=False)
+        for bb, t in c.calls():
+            if call_matches(t, 'TopicCache::mark_reliably_received_before'):
+                g = resolve_captures(fx, c, ogc.of_operand(t['args'][1], bb, 'term'), summaries=False)
+                x = ogc.of_operand(t['args'][2], bb, 'term')
+                gp = [k for k, v in names.items() if v == 'writer_guid']
+                if term_has(g, lambda y: gp and y == ('param', gp[0])) and x[0] == 'call' and x[1].endswith('all_ackable_before') and _unref(x[2][0]) == ('param', 2):
+                    marks.append(c.key)
+    maps = []
+    for bb, t in m.calls():
+        if callee_res(t).endswith('Option::<T>::map') or callee_res(t).endswith(('::map', '::inspect')):
+            rc = og.of_operand(t['args'][0], bb, 'term')
+            cl = str(og.of_operand(t['args'][1], bb, 'term'))
+            if rc[0] == 'call' and rc[1].endswith('matched_writer') and any(k in cl for k in marks):
+                gp = [k for k, v in names.items() if v == 'writer_guid']
+                if gp and _unref(rc[2][1]) == ('param', gp[0]):
+                    maps.append((bb, 'term'))
+    okm = bool(stateful) and bool(marks) and bool(maps)
+    for s_, t_ in stateful:
+        for r in m.return_blocks():
+            if P.can_reach((t_, 0), (r, 'term'), avoid_pos=maps):
+                okm = False
+    rep.check(okm, 'R01.15', 'make_cache_change/marker-follows', 'stateful => matched_writer(writer_guid).map(|wp| mark_reliably_received_before(writer_guid, wp.all_ackable_before()))',
+              'after storing a sample make_cache_change does not move the reliable marker of that writer to its proxy\'s frontier on every path of a stateful reader: in-order '
+              'samples sit in the cache until some later HEARTBEAT or GAP happens to move the marker', m.where())
+    a = fx.find(TC + 'add_change')
+    rep.analysed(a)
+    og = Origins(a, summaries=False)
+    P = Pos(a)
+    ai = [(bb, 'term') for bb, t in a.calls() if call_matches(t, 'TopicCache::add_change_internal') and
+          [_unref(og.of_operand(x, bb, 'term')) for x in t['args']] == [('param', 1), ('param', 2), ('param', 3)]]
+    ok = len(ai) == 1 and all(P.every_path_passes(None, (r, 'term'), via_pos=ai, from_entry=True) for r in a.return_blocks())
+    rep.check(ok, 'R01.15', 'add_change/forwards', 'add_change_internal(self, instant, cache_change) on every path', 'TopicCache::add_change does not forward its arguments to add_change_internal on every path', a.where())
+    i = fx.find(TC + 'add_change_internal')
+    rep.analysed(i)
+    og = Origins(i, summaries=False)
+    P = Pos(i)
+    edges = list(switch_edges(i, fx, og))
+    new_e = [(s_, t_) for s_, t_, cond, lab in edges if lab == 'None' and cond[0] == 'discr' and cond[1][0] == 'call' and cond[1][1].endswith('find_by_sn') and _unref(cond[1][2][1]) == ('param', 3)]
+    dup_e = [(s_, t_) for s_, t_, cond, lab in edges if lab == 'Some' and cond[0] == 'discr' and cond[1][0] == 'call' and cond[1][1].endswith('find_by_sn')]
+    isn = [(bb, 'term') for bb, t in i.calls() if call_matches(t, 'TopicCache::insert_sn') and _unref(og.of_operand(t['args'][1], bb, 'term')) == ('param', 2) and _unref(og.of_operand(t['args'][2], bb, 'term')) == ('param', 3)]
+    ich = [(bb, 'term') for bb, t in i.calls() if callee_res(t).endswith('::insert') and og.of_operand(t['args'][0], bb, 'term') == ('field', 'changes', ('param', 1)) and
+           _unref(og.of_operand(t['args'][1], bb, 'term')) == ('param', 2) and _unref(og.of_operand(t['args'][2], bb, 'term')) == ('param', 3)]
+    ok = len(new_e) == 1 and len(dup_e) == 1 and len(isn) == 1 and len(ich) == 1
+    why = 'shape (%d/%d/%d/%d)' % (len(new_e), len(dup_e), len(isn), len(ich))
+    if ok:
+        for r in i.return_blocks():
+            if P.can_reach((new_e[0][1], 0), (r, 'term'), avoid_pos=isn) or P.can_reach((new_e[0][1], 0), (r, 'term'), avoid_pos=ich):
+                ok = False
+                why = 'a new number can return without both inserts'
+        if any(P.can_reach((dup_e[0][1], 0), x) for x in isn + ich):
+            ok = False
+            why = 'a known number is inserted again'
+        if not (P.every_path_passes(None, isn[0], via_edges=new_e, from_entry=True) and P.every_path_passes(None, ich[0], via_edges=new_e, from_entry=True)):
+            ok = False
+            why = 'an insert is reachable without the find_by_sn test'
+    rep.check(ok, 'R01.15', 'add_change_internal/indexes', 'unknown number => insert_sn(instant, change) and changes.insert(instant, change); known number => nothing',
+              'add_change_internal does not keep its two indexes (%s): a sample that is in one and not in the other is never returned by the reliable query, or a duplicate is '
+              'stored twice' % why, i.where())
+    s_ = fx.find(TC + 'insert_sn')
+    rep.analysed(s_)
+    og = Origins(s_, summaries=False)
+    ins = [(bb, t) for bb, t in s_.calls() if callee_res(t).endswith('::insert')]
+    ok = len(ins) == 1
+    if ok:
+        bb, t = ins[0]
+        recv, k, v = (og.of_operand(x, bb, 'term') for x in t['args'])
+        ok = term_has(recv, lambda y: y[0] == 'call' and y[1].endswith('::entry') and y[2][0] == ('field', 'sequence_numbers', ('param', 1)) and _unref(y[2][1]) == ('field', 'writer_guid', ('param', 3))) and \
+            _unref(k) == ('field', 'sequence_number', ('param', 3)) and _unref(v) == ('param', 2) and \
+            all(Pos(s_).every_path_passes(None, (r, 'term'), via_pos=[(bb, 'term')], from_entry=True) for r in s_.return_blocks())
+    rep.check(ok, 'R01.15', 'insert_sn/keyed', 'sequence_numbers[cc.writer_guid][cc.sequence_number] = instant', 'insert_sn does not file the instant under the writer and sequence number of the change', s_.where())
+
+
+def _unref(t):
+    while isinstance(t, tuple) and t and t[0] in ('ref', 'deref', 'copy') and len(t) > 1 and isinstance(t[1], tuple):
+        t = t[1]
+    return t
